@@ -1,4 +1,5 @@
 #![allow(dead_code, unused_imports)]
+mod c09;
 mod clock;
 mod disk;
 mod engine;
@@ -29,26 +30,59 @@ fn arg_val(args: &[String], name: &str) -> Option<String> {
 
 const ENGINE_PROPS: &[&str] = &["C01", "C02", "C03", "C04", "C05", "C10", "C11", "C12", "C13", "C18"];
 
+struct Plan {
+    batches: Vec<runner::Batch<'static>>,
+    level: &'static str,
+    rule: String,
+    exhaustive: bool,
+    assumptions: Vec<String>,
+    extra: serde_json::Value,
+}
+
+fn plan(prop: &str, tier: &str, seed: u64) -> Plan {
+    let base_assume = vec!["refdec (independent decoder), the tree model and SimDisk are trusted".to_string()];
+    if let Some(p) = ENGINE_PROPS.iter().copied().find(|x| *x == prop) {
+        return Plan {
+            batches: props::engine_batches(p, tier, seed),
+            level: if p == "C12" { "fault_enumeration" } else { "exploration" },
+            rule: "one evaluation = one API call of a seeded multi-client history on a swarm-drawn volume; distinct = distinct abstract states (model tree shape + slot-class string of every directory + free count) reached".into(),
+            exhaustive: false,
+            assumptions: base_assume,
+            extra: serde_json::json!({}),
+        };
+    }
+    match prop {
+        "C09" => Plan {
+            batches: c09::batches(tier, seed),
+            level: "fault_enumeration",
+            rule: "one evaluation = one re-execution of a history with exactly one device call of the target operation failing (position k); all k = 1..=N are enumerated per target (sampled above the cap, counted separately); distinct = distinct (operation kind, N, k) triples per scenario".into(),
+            exhaustive: false,
+            assumptions: vec!["the in_drop hook (--cfg fatfs_verif) tells destructor context apart".into(), "single fault per run (plus the 'device stays dead' variant)".into()],
+            extra: serde_json::json!({}),
+        },
+        _ => {
+            eprintln!("unknown property {}", prop);
+            std::process::exit(2)
+        }
+    }
+}
+
 fn check(prop: &str, tier: &str, seed: u64) -> i32 {
     let t0 = Instant::now();
     let mut agg = Agg::default();
-    let p: &'static str = ENGINE_PROPS.iter().copied().find(|x| *x == prop).unwrap_or_else(|| {
-        eprintln!("unknown property {}", prop);
-        std::process::exit(2)
-    });
-    let batches = props::engine_batches(p, tier, seed);
-    runner::run_batches(batches, &mut agg);
+    let pl = plan(prop, tier, seed);
+    runner::run_batches(pl.batches, &mut agg);
     let rep = CheckReport {
         property: prop.to_string(),
         tier: tier.to_string(),
         seed,
-        level: "exploration".into(),
-        rule: "one evaluation = one API call of a seeded multi-client history on a swarm-drawn volume; distinct = distinct abstract states (model tree shape + slot-class string of every directory + free count) reached".into(),
-        exhaustive: false,
+        level: pl.level.into(),
+        rule: pl.rule,
+        exhaustive: pl.exhaustive,
         components: runner::components(),
-        assumptions: vec!["refdec (independent decoder), the tree model and SimDisk are trusted".into()],
+        assumptions: pl.assumptions,
     };
-    runner::finish(rep, agg, t0, serde_json::json!({}))
+    runner::finish(rep, agg, t0, pl.extra)
 }
 
 fn main() {
